@@ -156,7 +156,11 @@ def run(ctx):
                 k = rng.randint(0, len(s))
                 s = s[:k] + "c" + s[k:]
             nclones += 1
-        ops.append("m.run %s%s # %s" % ("C " if 0.25 <= z < 0.35 else "", p_strm.render(t), s))
+        rend = p_strm.render(t)
+        if 0.35 <= z < 0.5 and 2 <= len(t[1]) <= 6 and all(x[0] == "L" and x[1] for x in t[1]):
+            # the same sources through one of the other constructors (argument lists end at the first NULL, so no empty source)
+            rend = rng.choice(["MX", "MC", "VC"]) + rend[1:]
+        ops.append("m.run %s%s # %s" % ("C " if 0.25 <= z < 0.35 else "", rend, s))
         nclones += 0.25 <= z < 0.35
     impl, st, err = ctx.impl(exe, ops)
     model = ctx.model(ops)
